@@ -13,7 +13,7 @@ import (
 type hAttr struct{ Key, Val string }
 
 type hEvent struct {
-	Kind  byte // 'O' open, 'C' close, 'T' text, 'M' comment, 'D' doctype
+	Kind  byte   // 'O' open, 'C' close, 'T' text, 'M' comment, 'D' doctype
 	Name  string // ns-qualified element name ("svg:path")
 	Attrs []hAttr
 	Data  string
